@@ -789,6 +789,21 @@ func mutate(r *hlib.Rng, h *Hist, e *env, root []byte, leaves []KVb, kv KVb, pro
 			}
 		}
 	}
+	// two-sided proof nodes (both sibling slots filled), combined with right and wrong claims
+	if len(pi) > 0 {
+		var at []int
+		if light || sampled {
+			at = []int{0}
+			if j := r.Intn(len(pi)); j != 0 {
+				at = append(at, j)
+			}
+		} else {
+			for i := range pi {
+				at = append(at, i)
+			}
+		}
+		twoSided(r, h, root, leaves, kv, pi, at)
+	}
 	if light {
 		if len(pi) > 0 {
 			i := r.Intn(len(pi))
@@ -894,6 +909,82 @@ func mutate(r *hlib.Rng, h *Hist, e *env, root []byte, leaves []KVb, kv KVb, pro
 	for _, cut := range []int{1, 2, len(proof) / 2, len(proof) - 1} {
 		if cut > 0 && cut < len(proof) {
 			vprobe(h, root, k, v, proof[:cut], fmt.Sprintf("proof bytes cut at %d", cut))
+		}
+	}
+}
+
+// refDigests: the genuine digest entering each node of an honest path (index 0 = the
+// leaf digest), computed with the harness's own encoder.
+func refDigests(k, v []byte, pi []pnodeT) [][]byte {
+	d := sha256.Sum256(encNode(k, v, 0, 1))
+	cur := d[:]
+	out := [][]byte{cur}
+	for _, p := range pi {
+		if len(p.l) == 0 {
+			d = sha256.Sum256(encNode(refTrim(cur), refTrim(p.r), p.h, p.s))
+		} else {
+			d = sha256.Sum256(encNode(refTrim(p.l), refTrim(cur), p.h, p.s))
+		}
+		cur = append([]byte{}, d[:]...)
+		out = append(out, cur)
+	}
+	return out
+}
+
+// twoSided: forged proofs whose node i has BOTH sibling slots filled: the empty slot of
+// the honest node gets (a) the genuine digest of the child on the path, (b) a copy of the
+// genuine sibling, (c) random 32 bytes, (d) the genuine child digest behind a prefix.
+// Each forged proof is offered with the right pair (answer decided by the model), and
+// with wrong values / wrong keys (present and absent), which must all be rejected.
+func twoSided(r *hlib.Rng, h *Hist, root []byte, leaves []KVb, kv KVb, pi []pnodeT, at []int) {
+	k, v := kv.k, kv.v
+	ds := refDigests(k, v, pi)
+	for _, i := range at {
+		sib := pi[i].l
+		if len(sib) == 0 {
+			sib = pi[i].r
+		}
+		fills := []struct {
+			name string
+			b    []byte
+		}{
+			{"genuine child digest", ds[i]},
+			{"copy of the sibling", append([]byte{}, sib...)},
+			{"random 32 bytes", r.Bytes(32)},
+		}
+		if i == 0 && r.Chance(1, 2) {
+			fills = append(fills, struct {
+				name string
+				b    []byte
+			}{"prefixed genuine child digest", append([]byte("_mh-0000000001-"), ds[i]...)})
+		}
+		for fi, f := range fills {
+			c := clonePI(pi)
+			if len(c[i].l) == 0 {
+				c[i].l = f.b
+			} else {
+				c[i].r = f.b
+			}
+			enc := encodeNodes(c)
+			note := fmt.Sprintf("node %d two-sided (%s): ", i, f.name)
+			vprobe(h, root, k, v, enc, note+"right pair")
+			vprobe(h, root, k, flip(r, v), enc, note+"value bit flipped")
+			if fi != 0 {
+				continue
+			}
+			// the full set of wrong claims for the genuine child digest
+			vprobe(h, root, flip(r, k), v, enc, note+"key bit flipped")
+			vprobe(h, root, neighbour(r, k), r.Bytes(r.Range(0, 4)), enc, note+"neighbour key, random value")
+			if len(leaves) > 1 {
+				o := leaves[r.Intn(len(leaves))]
+				if !bytes.Equal(o.k, k) {
+					vprobe(h, root, o.k, v, enc, note+"other key, this value")
+				}
+			}
+			// the suffix of the forged path alone: node i upwards says nothing about the leaf
+			if i > 0 {
+				vprobe(h, root, k, flip(r, v), encodeNodes(c[i:]), note+"path from node i only, value bit flipped")
+			}
 		}
 	}
 }
